@@ -1287,7 +1287,9 @@ class DNA(symbolic.Object):
       elif len(self.children) == 1:
         child = self.children[0].to_numbers(flatten)
         if isinstance(child, tuple):
-          return tuple([self.value, list(child)])
+          # Chain of single children: `(0, 1, [2, 3])` (a list would mean
+          # multiple children).
+          return (self.value,) + child
         else:
           return (self.value, child)
       else:
